@@ -15,6 +15,8 @@ STATES = {
     "pt8v": ("qint8", None, (4,)),
     "pt8b": ("qint8", None, (2, 2, 3)),
     "ptf8": ("qfloat8_e4m3fn", None, (2, 3)),
+    "axm1b": ("qint8", -1, (2, 2, 3)),
+    "ax0b": ("qint8", 0, (2, 2, 3)),
     "ax0": ("qint8", 0, (2, 3)),
     "axm1": ("qint8", -1, (2, 3)),
     "ax0sq": ("qint8", 0, (2, 2)),
@@ -159,6 +161,7 @@ def catalogue():
         Op("matmul", a.mm, lambda q, o: torch.matmul(q, o.t()), ["pt8", "axm1"], "contract", "diff-scale"),
         Op("bmm", a.bmm, lambda q, o: torch.bmm(q, o.transpose(1, 2)), ["pt8b"], "contract", "diff-scale"),
         Op("bmm-plain", a.bmm, lambda q, o: torch.bmm(q, o.transpose(1, 2)), ["pt8b"], "contract", "plain"),
+        Op("bmm-per-axis", a.bmm, lambda q, o: torch.bmm(q, o.transpose(1, 2)), ["axm1b", "ax0b"], "contract", "per-tensor-3d"),
         Op("mul-scalar", a.mul, lambda q, o: q * 2.5, ALL8, "rescale"),
         Op("rmul-scalar", a.mul, lambda q, o: 0.5 * q, ["pt8", "ax0", "ptf8"], "rescale"),
         Op("mul-0dim", a.mul, lambda q, o: q * torch.tensor(1.5), ["pt8", "ax0"], "rescale"),
@@ -296,6 +299,9 @@ def second_operand(op, kind, q, dt, m=None, override=None):
         return o, sym
     if op.second == "diff-scale":
         o, sym = make_state(kind, dt, m, "o", seed=5, override=override)
+        return o, sym
+    if op.second == "per-tensor-3d":
+        o, sym = make_state("pt8b", dt, m, "o", seed=5, override=override)
         return o, sym
     if op.second == "plain":
         g = torch.Generator().manual_seed(9)
